@@ -19,6 +19,7 @@ From Coq Require Import ZArith List Bool Reals Lra Permutation.
 From BZ Require Import Base.Ops Hand.Nodelist Proofs.C08.
 From BZ Require Gen.Sample Gen.Nodelist Proofs.Bridge3.
 Import ListNotations.
+From BZ Require Proofs.Transfer3.
 Open Scope R_scope.
 
 Theorem C08_nodes_roundtrip_open :
@@ -105,6 +106,30 @@ Proof. exact @Bridge3.toNodelist_gen. Qed.
 Theorem C08_fromNodelist_is_generated :
   forall (T : Type) (O : Ops T) (c : bool) (nl : list (Gen.Nodelist.gnode T)), fromNodelist O c (map (@Bridge3.node_of T) nl) = option_map (@Gen.Nodelist.sr_segments T) (Bridge3.opt_of_outcome (Gen.Nodelist.SegRep_fromNodelist O c nl)).
 Proof. exact @Bridge3.fromNodelist_gen. Qed.
+Theorem C08_gen_nodes_roundtrip_open :
+  forall (T : Type) (O : Ops T) (segs : list (segment T)), wf_chain segs -> segs <> [] -> Transfer3.C08T.gen_roundtrips O false segs segs.
+Proof. exact @Transfer3.C08T.gen_nodes_roundtrip_open. Qed.
+Theorem C08_gen_nodes_roundtrip_closed :
+  forall segs : list (segment R), wf_chain segs -> segs <> [] -> last_end segs = first_start segs -> Transfer3.C08T.gen_roundtrips ROps true segs segs.
+Proof. exact @Transfer3.C08T.gen_nodes_roundtrip_closed. Qed.
+Theorem C08_gen_nodes_roundtrip_closed_unclosed :
+  forall (segs : list (segment R)) (e f : pt R), wf_chain segs -> last_end segs = Some e -> first_start segs = Some f -> pclose ROps e f = false -> Transfer3.C08T.gen_roundtrips ROps true segs (segs ++ [SLine {| l0 := e; l1 := f |}])%list.
+Proof. exact @Transfer3.C08T.gen_nodes_roundtrip_closed_unclosed. Qed.
+Theorem C08_gen_toNodelist_empty_raises :
+  forall (T : Type) (O : Ops T) (closed : bool), Nodelist.SegRep_toNodelist O {| Nodelist.sr_path := closed; Nodelist.sr_segments := [] |} = Sample.Raises Sample.PyIndexError.
+Proof. exact @Transfer3.C08T.gen_toNodelist_empty_raises. Qed.
+Theorem C08_gen_rotation_invariant :
+  forall (T : Type) (O : Ops T) (gl : list (Nodelist.gnode T)) (r : Nodelist.segrep T), has_on (map Bridge3.node_of gl) = true -> cyc_no_close_adj O (map Bridge3.node_of gl) -> Nodelist.SegRep_fromNodelist O true gl = Sample.Returns r -> forall k : nat, exists r' : Nodelist.segrep T, Nodelist.SegRep_fromNodelist O true (rotl k gl) = Sample.Returns r' /\ Nodelist.sr_path r' = true /\ Nodelist.sr_segments r' = rotl (passed k (map Bridge3.node_of gl)) (Nodelist.sr_segments r).
+Proof. exact @Transfer3.C08T.gen_rotation_invariant. Qed.
+Theorem C08_gen_closing_segment_exists :
+  forall (T : Type) (O0 : Ops T) (gl : list (Nodelist.gnode T)) (r : Nodelist.segrep T) (f l : pt T), first_on (map Bridge3.node_of gl) = Some f -> last_on (map Bridge3.node_of gl) = Some l -> pclose O0 l f = false -> Nodelist.SegRep_fromNodelist O0 false gl = Sample.Returns r -> (trailing_offs (map Bridge3.node_of gl) + leading_offs (map Bridge3.node_of gl) <= 2)%nat -> exists (r' : Nodelist.segrep T) (s : segment T), Nodelist.SegRep_fromNodelist O0 true gl = Sample.Returns r' /\ Nodelist.sr_path r' = true /\ Nodelist.sr_segments r' = (Nodelist.sr_segments r ++ [s])%list /\ seg_start s = l /\ seg_end s = f.
+Proof. exact @Transfer3.C08T.gen_closing_segment_exists. Qed.
+Theorem C08_gen_closing_adds_nothing :
+  forall (T : Type) (O0 : Ops T) (gl : list (Nodelist.gnode T)) (r : Nodelist.segrep T) (f l : pt T), first_on (map Bridge3.node_of gl) = Some f -> last_on (map Bridge3.node_of gl) = Some l -> pclose O0 l f = true -> trailing_offs (map Bridge3.node_of gl) = 0%nat -> leading_offs (map Bridge3.node_of gl) = 0%nat -> Nodelist.SegRep_fromNodelist O0 false gl = Sample.Returns r -> exists r' : Nodelist.segrep T, Nodelist.SegRep_fromNodelist O0 true gl = Sample.Returns r' /\ Nodelist.sr_path r' = true /\ Nodelist.sr_segments r' = Nodelist.sr_segments r.
+Proof. exact @Transfer3.C08T.gen_closing_adds_nothing. Qed.
+Theorem C08_gen_closing_segment_fails :
+  forall (T : Type) (O0 : Ops T) (gl : list (Nodelist.gnode T)), has_on (map Bridge3.node_of gl) = true -> (trailing_offs (map Bridge3.node_of gl) + leading_offs (map Bridge3.node_of gl) > 2)%nat -> exists e : Sample.pyexc, Nodelist.SegRep_fromNodelist O0 true gl = Sample.Raises e.
+Proof. exact @Transfer3.C08T.gen_closing_segment_fails. Qed.
 
 Print Assumptions C08_nodes_roundtrip_open.
 Print Assumptions C08_nodes_roundtrip_closed.
@@ -128,3 +153,11 @@ Print Assumptions C08_parse_quad_repr.
 Print Assumptions C08_parse_cubic_repr.
 Print Assumptions C08_toNodelist_is_generated.
 Print Assumptions C08_fromNodelist_is_generated.
+Print Assumptions C08_gen_nodes_roundtrip_open.
+Print Assumptions C08_gen_nodes_roundtrip_closed.
+Print Assumptions C08_gen_nodes_roundtrip_closed_unclosed.
+Print Assumptions C08_gen_toNodelist_empty_raises.
+Print Assumptions C08_gen_rotation_invariant.
+Print Assumptions C08_gen_closing_segment_exists.
+Print Assumptions C08_gen_closing_adds_nothing.
+Print Assumptions C08_gen_closing_segment_fails.
